@@ -95,7 +95,7 @@ type CollectionList struct {
 
 var (
 	blkRe = regexp.MustCompile(`^ [0-9a-f]{32}\+\d+`)
-	tokRe = regexp.MustCompile(` ?[^ ]*`)
+	tokRe = regexp.MustCompile(`[ \n]?[^ \n]*`)
 )
 
 // PortableDataHash computes the portable data hash of the given
